@@ -180,13 +180,24 @@ theorem ListEqA.append_left {A : List String} (pre : List DS) {l l' : List DS} (
   | nil => exact hl
   | cons s t ih => exact ListEqA.cons_same s ih
 
+theorem earlyS_block (l : List DS) : earlyS (.block l) = earlyScope [] l := by simp only [earlyS, earlyScope]
+
+theorem earlyS_for (w : Bool) (i : DS) (c p : Option DE) (b : List DS) :
+    earlyS (.forS w i c p b) = (constNoInit i || hasDup ((lexDeclsS i).map (·.1))
+      || meets ((lexDeclsS i).map (·.1)) (varNamesL b) || earlyScope [] b) := by
+  simp only [earlyS, earlyScope]
+
+theorem earlyS_try (b : List DS) (x : String) (a : Ann) (cb : List DS) :
+    earlyS (.tryS b x a cb) = (earlyScope [] b || earlyScope [x] cb) := by
+  simp only [earlyS, earlyScope]
+
 theorem earlyScope_congr {A : List String} (outer : List String) {l l' : List DS} (h : ListEqA A l l')
     (hA : meets (lexNamesL l) A = false) : earlyScope outer l = earlyScope outer l' := by
   have hm : meets (lexNamesL l) (varNamesL l') = meets (lexNamesL l) (varNamesL l) := by
     rw [meets_or _ _ (fun x => A.contains x) _ h.vars]
     have : (lexNamesL l).any (fun x => A.contains x) = false := hA
     rw [this, Bool.or_false]
-  simp only [earlyScope, lexNamesL, ← h.lex, ← h.early]
+  simp only [earlyScope, scopeClash, lexNamesL, ← h.lex, ← h.early]
   simp only [lexNamesL] at hm
   rw [hm]
 
@@ -196,7 +207,7 @@ theorem earlyBody_congr {A : List String} (ps : List String) {l l' : List DS} (h
     rw [meets_or _ _ (fun x => A.contains x) _ h.vars]
     have : (lexNamesL l).any (fun x => A.contains x) = false := hA
     rw [this, Bool.or_false]
-  simp only [earlyBody, lexNamesL, ← h.lex, ← h.early, ← h.fns]
+  simp only [earlyBody, bodyClash, lexNamesL, ← h.lex, ← h.early, ← h.fns]
   simp only [lexNamesL] at hm
   rw [hm]
 
@@ -209,7 +220,7 @@ theorem StmtEqA.block {A : List String} {l l' : List DS} (h : ListEqA A l l')
   lex := rfl
   vars := by intro x; simp only [varNamesS, h.vars x]
   fns := rfl
-  early := by simp only [earlyS, earlyScope_congr [] h hA]
+  early := by simp only [earlyS_block, earlyScope_congr [] h hA]
   frag := by simp only [fragS, h.frag, h.anyFn]
   isFn := rfl
 
@@ -258,7 +269,7 @@ theorem StmtEqA.forBody {A : List String} (w : Bool) (i : DS) (c p : Option DE) 
       rw [meets_or _ _ (fun x => A.contains x) _ h.vars]
       have : ((lexDeclsS i).map (·.1)).any (fun x => A.contains x) = false := hi
       rw [this, Bool.or_false]
-    simp only [earlyS, earlyScope_congr [] h hA, hm]
+    simp only [earlyS_for, earlyScope_congr [] h hA, hm]
   frag := by simp only [fragS, h.frag, h.anyFn]
   isFn := rfl
 
@@ -275,7 +286,7 @@ theorem StmtEqA.tryBody {A : List String} (x : String) (a : Ann) (cb : List DS) 
     simp only [varNamesS, contains_append, hb.vars y]
     cases (varNamesL b).contains y <;> cases A.contains y <;> simp
   fns := rfl
-  early := by simp only [earlyS, earlyScope_congr [] hb hA]
+  early := by simp only [earlyS_try, earlyScope_congr [] hb hA]
   frag := by simp only [fragS, hb.frag, hb.anyFn]
   isFn := rfl
 
@@ -289,7 +300,7 @@ theorem StmtEqA.catchBody {A : List String} (x : String) (a : Ann) (b : List DS)
   lex := rfl
   vars := by intro y; simp only [varNamesS, contains_append, hc.vars y, Bool.or_assoc]
   fns := rfl
-  early := by simp only [earlyS, earlyScope_congr [x] hc hA]
+  early := by simp only [earlyS_try, earlyScope_congr [x] hc hA]
   frag := by simp only [fragS, hc.frag, hc.anyFn]
   isFn := rfl
 
